@@ -1281,6 +1281,8 @@ def check_api_invalid(inp) -> list:
                 return out
     # shape mismatches
     for bad in inp.get("bad_shapes", []):
+        if tuple(bad) == d.shape:
+            continue            # e.g. (S, 3, N) for a three-atom cell IS the valid shape
         t = Symfc(cr.atoms(), displacements=d, forces=f)
         t.compute_basis_set(orders=[2])
         t.solve(orders=[2])
